@@ -171,8 +171,10 @@ Print Assumptions C06_overlay_handle_transparent.
 (* ---- 5. copy-up keeps the bytes and the mtime (MemMapFs on both sides) ---- *)
 (* the two predicates of the statements below, spelled out.  copy_up_ready: the overlay lacks the
    name and either (A) has the directory part of the name (copy_dir name, see C06_copy_dir_meaning), or (B) lacks it too but has ITS parent
-   entry (copyFile then creates one directory level; e.g. the overlay holds only "/" and the file
-   is /d/f).  parent_key x is the key MemMapFs.registerWithParent looks up for a node called x.
+   directory (copyFile then creates one directory level; e.g. the overlay holds only "/" and the file
+   is /d/f).  parent_key x is the key MemMapFs.registerWithParent looks up for a node called x; the
+   entry found there has to be a directory (ndir = true): below a regular file MemMapFs creates
+   nothing and answers ENOTDIR (Gen/Consts.v memfs_refuses_below_file), so the copy-up fails there.
    LF nn g s d mt: in s the path nn names node g, a regular file with bytes d (and mtime mt). *)
 Theorem C06_copy_up_ready_meaning : forall s name,
   copy_up_ready s name <->
@@ -180,10 +182,10 @@ Theorem C06_copy_up_ready_meaning : forall s name,
   let nn := normalize_path name in
   ((exists d dn, lookup s dk = Some d /\ get_node s d = Some dn) /\
    lookup s nn = None /\ parent_key nn <> nn /\
-   exists pp pn, lookup s (parent_key nn) = Some pp /\ get_node s pp = Some pn)
+   exists pp pn, lookup s (parent_key nn) = Some pp /\ get_node s pp = Some pn /\ ndir pn = true)
   \/
   (lookup s dk = None /\ parent_key dk <> dk /\
-   (exists pp pn, lookup s (parent_key dk) = Some pp /\ get_node s pp = Some pn) /\
+   (exists pp pn, lookup s (parent_key dk) = Some pp /\ get_node s pp = Some pn /\ ndir pn = true) /\
    lookup s nn = None /\ parent_key nn = dk /\ dk <> nn).
 Proof. exact copy_up_ready_meaning. Qed.
 Print Assumptions C06_copy_up_ready_meaning.
@@ -323,12 +325,12 @@ Example C06_ex_ready_A : copy_up_ready c06_layer p_f.
 Proof.
   left. split; [exists 1%nat; eexists; split; vm_compute; reflexivity|].
   split; [vm_compute; reflexivity|]. split; [vm_compute; discriminate|].
-  exists 1%nat. eexists. split; vm_compute; reflexivity.
+  exists 1%nat. eexists. split; [vm_compute; reflexivity|]. split; vm_compute; reflexivity.
 Qed.
 Example C06_ex_ready_B : copy_up_ready m_init p_f.
 Proof.
   right. split; [vm_compute; reflexivity|]. split; [vm_compute; discriminate|].
-  split; [exists 0%nat; eexists; split; vm_compute; reflexivity|].
+  split; [exists 0%nat; eexists; split; [vm_compute; reflexivity|]; split; vm_compute; reflexivity|].
   split; [vm_compute; reflexivity|]. split; [vm_compute; reflexivity | vm_compute; discriminate].
 Qed.
 (* situation (B) computed: copy-up into an overlay that holds only "/" *)
